@@ -159,6 +159,16 @@ def handler : Handler := fun op j =>
         ("eval", jArr evs), ("adj", jArr ads), ("den", denJ),
         ("eval_dt", jDtRes (o.evalDt md.inDt)),
         ("adj_dt", jDtRes (o.adjCallDt md.outDt)),
+        ("call_arr", match (optField? j "probe_xsh" getShape?) with
+            | some (some sh) => (match o.callArr sh zeroV with
+                | .ok _ => jS "ok"
+                | .error k => jS ("err:" ++ k.name))
+            | _ => Json.null),
+        ("adj_arr", match (optField? j "probe_ysh" getShape?), (optField? j "probe_ydt" getDT?) with
+            | some (some sh), some (some dt) => (match o.adjArr sh dt zeroV with
+                | .ok _ => jDtRes (o.adjDt dt)
+                | .error k => jS ("err:" ++ k.name))
+            | _, _ => Json.null),
         ("adj_dt_actual", jDtRes (match o.evalDt md.inDt with
             | .ok d => o.adjCallDt d
             | .error e => .error e))]))
